@@ -33,4 +33,8 @@ def _sites_C17(rep, spec, verbose=False, only=None):
     from . import sites, props
     return sites.run_sites(rep, spec, props, verbose=verbose, only=only)
 
-EXTRA = {'C06': _patterns_C06, 'C08': _patterns_C08, 'C17': _sites_C17}
+def _patterns_C14(rep, spec, verbose=False, only=None):
+    from . import patterns
+    return patterns.run_c14(rep, spec, verbose=verbose, only=only)
+
+EXTRA = {'C06': _patterns_C06, 'C08': _patterns_C08, 'C17': _sites_C17, 'C14': _patterns_C14}
